@@ -68,6 +68,11 @@ var hostile = []string{
 	"null", "true", "false", "{}", "[]", "[,]", "{,}", "{\"\":\"\"}", "{\"__proto__\":1}", "{\"a\":1,\"a\":2}", "1e999", "-1e999", "-", "+1", "01", ".5", "5.", "'a'", "\"\\v\"", "\"\\u{61}\"", "\"\\ud800\"", "\"\n\"", "/**/", "//", "NaN", "undefined", "0x1", "1n",
 }
 
+// Compact token alphabets for the `tokens` mutation: 2–4 random tokens inserted in a row, so that every ordered
+// pair of tokens of the language is reached a few times per quick run (the hostile list above is too long for that).
+var jsTokens = strings.Fields("( ) [ ] { } ; , . ... ? ?. : = => == === ! != !== ~ + - * / % ** ++ -- << >> >>> & | ^ && || ?? += -= *= /= **= ??= ||= &&= <<= >>>= < > <= >= @ # ` ${ a b 0 1n .5 'c' /r/ if else for while do in of instanceof new delete typeof void await yield async function function* class extends static get set let const var using return throw break continue try catch finally switch case default: import export default from as null true this super with debugger enum interface type namespace declare abstract is keyof readonly satisfies <T> </a> <a />")
+var cssTokens = strings.Fields("{ } ( ) [ ] ; : , . # @ & > + ~ * | || = ~= |= ^= $= *= ^ $ ! % / - -- a b 0 1px 1e3 50% #fff 'c' url(x) var(--x) calc( rgb( @media @import @supports @layer @keyframes @font-face @container @scope @nest @charset :is( :not( :has( :where( :hover ::before :global( :local( :root !important from to and not or only of inherit initial U+0-7F <!-- --> \\ /* */")
+
 var truncTails = []string{"\xe0", "\xe0\xa0", "\xf0", "\xf0\x9f", "\xf0\x9f\x98", "\xc3", "\xdf", "\xef", "\xef\xbb", "\xf4\x8f\xbf", "\xe0A", "\xf0AB"}
 
 func bigNumber(t *rapid.T, css bool) string {
@@ -117,7 +122,7 @@ func insertAt(b []byte, at int, s string) []byte {
 
 // mutate applies one drawn mutation; returns the new bytes and the mutation's label.
 func mutate(t *rapid.T, b []byte, pool []string, css bool, allowTrunc bool) ([]byte, string) {
-	k := rapid.IntRange(0, 15).Draw(t, "mut")
+	k := rapid.IntRange(0, 18).Draw(t, "mut")
 	switch k {
 	case 0: // truncate
 		return b[:pos(t, len(b), "cut")], "truncate"
@@ -213,6 +218,28 @@ func mutate(t *rapid.T, b []byte, pool []string, css bool, allowTrunc bool) ([]b
 		i, j := rapid.IntRange(0, len(b)-1).Draw(t, "swi"), rapid.IntRange(0, len(b)-1).Draw(t, "swj")
 		out[i], out[j] = out[j], out[i]
 		return out, "swap"
+	case 15, 16, 17: // a short run of random tokens, preferably where a statement / expression / rule can start
+		alphabet := jsTokens
+		if css {
+			alphabet = cssTokens
+		}
+		var sb strings.Builder
+		for i, n := 0, rapid.IntRange(2, 4).Draw(t, "ntok"); i < n; i++ {
+			sb.WriteString(rapid.SampledFrom(alphabet).Draw(t, "tok"))
+			if rapid.IntRange(0, 2).Draw(t, "tokspace") > 0 {
+				sb.WriteByte(' ')
+			}
+		}
+		at := pos(t, len(b), "tokat")
+		if rapid.Bool().Draw(t, "atboundary") {
+			for k := at; k < len(b) && k < at+24; k++ {
+				if c := b[k]; c == ';' || c == '{' || c == '(' || c == '=' || c == ',' || c == '\n' || c == ':' || c == '[' {
+					at = k + 1
+					break
+				}
+			}
+		}
+		return insertAt(b, at, " "+sb.String()), "tokens"
 	case 14: // NUL / invalid UTF-8 flood
 		s := rapid.SampledFrom([]string{"\x00", "\xff", "\x80", "\xc0", "\xed\xa0\x80", "\xf5"}).Draw(t, "flood")
 		return insertAt(b, pos(t, len(b), "floodat"), strings.Repeat(s, rapid.SampledFrom([]int{1, 7, 300}).Draw(t, "nflood"))), "badbytes"
